@@ -230,6 +230,84 @@ let c15_paged_tokens (sch : sdef list) (st : state) (buf : Buffer.t) : unit =
         end
     end) sch
 
+(* ---- C15: QueryWithCursorC through every store of a family over caller-supplied cursors (tokens QC:..., same rule as
+   c15Providers / c15CursorReads in harness/cmd/storageharness/store_c15w7.go - keep them in step).  The answers are the
+   transcribed scan loops over the candidate list (Store/PagingCursor.v unsorted_scan_over / sorting_scan_over). *)
+let c15_sort_ids (l : n list list) : n list list =
+  List.map snd (List.sort_uniq compare (List.map (fun i -> (hex_of_bytes i, i)) l))
+
+let c15_cursor_tokens (sch : sdef list) (st : state) (buf : Buffer.t) : unit =
+  List.iter (fun rd ->
+    if rd.sd_parent = None && c15_in_family sch rd && rd.sd_fields <> [] then begin
+      let rootn = rd.sd_name in
+      let first = fst (List.hd rd.sd_fields) in
+      let last = fst (List.nth rd.sd_fields (List.length rd.sd_fields - 1)) in
+      let ids = ids_of st rootn in
+      let fv = List.fold_left (fun acc i ->
+        match acc with
+        | Some _ -> acc
+        | None -> (match get_field sch st rootn i last with FStr w -> Some w | _ -> None)) None ids in
+      if ids <> [] then begin
+        (* providers: (descriptor, short, candidates) *)
+        let provs = ref [] in
+        let addp d sh c = provs := !provs @ [(d, sh, c)] in
+        let related peer set =
+          match find_store sch peer with
+          | Some pd when pd.sd_parent = None ->
+              (match List.find_opt (fun j -> get_set sch st peer j set <> []) (ids_of st peer) with
+               | Some j -> addp (Printf.sprintf "rl=%s=%s=%s" (string_of_name peer) (hex_of_bytes j) (string_of_name set)) false
+                             (c15_sort_ids (get_set sch st peer j set))
+               | None -> ())
+          | _ -> () in
+        List.iter (fun k ->
+          match k with
+          | CSetIdx sf ->
+              let pick = List.fold_left (fun acc i ->
+                match acc with
+                | Some _ -> acc
+                | None ->
+                    (match c15_sort_ids (List.filter (fun v -> v <> []) (get_set sch st rootn i sf)) with
+                     | [] -> None
+                     | [v] -> Some (v, v)
+                     | v :: w :: _ -> Some (v, w))) None ids in
+              (match pick with
+               | None -> ()
+               | Some (v, w) ->
+                   let sfs = string_of_name sf in
+                   addp (Printf.sprintf "si=%s=%s" sfs (hex_of_bytes v)) false (cands_set_all sch st rootn sf [v]);
+                   addp (Printf.sprintf "sa=%s=%s.%s" sfs (hex_of_bytes v) (hex_of_bytes w)) true (cands_set_all sch st rootn sf [v; w]);
+                   addp (Printf.sprintf "so=%s=%s.%s" sfs (hex_of_bytes v) (hex_of_bytes w)) true (cands_set_any sch st rootn sf [v; w]))
+          | CFkIndex (_, t, b, _) -> related t b
+          | _ -> ()) rd.sd_cons;
+        List.iter (fun ((_, os), of_) -> related os of_) rd.sd_links;
+        addp "ts=e" false (List.filteri (fun k _ -> k mod 2 = 0) ids);
+        addp "ts=a" true ids;
+        List.iter (fun d ->
+          if d.sd_name = rootn || d.sd_parent = Some rootn then begin
+            let nm = string_of_name d.sd_name in
+            List.iter (fun (desc, short, cands) ->
+              let emit flt srt skip limit =
+                let flt_s = (match flt with QTrue -> "T" | QFieldEq (f, v) -> "E=" ^ string_of_name f ^ "=" ^ hex_of_bytes v) in
+                let srt_s = (match srt with Some f -> string_of_name f | None -> "-") in
+                let lim_s = (match limit with Some l -> string_of_int l | None -> "n") in
+                let lim = (match limit with Some l -> Some (nat_of_int l) | None -> None) in
+                let sk = nat_of_int skip in
+                let (page, count) =
+                  (match srt with
+                   | Some f -> sorting_scan_over sch st d.sd_name flt f true sk lim cands
+                   | None -> unsorted_scan_over sch st d.sd_name flt sk lim cands) in
+                Buffer.add_string buf (Printf.sprintf " QC:%s:%s:%s:%s:a:%d:%s:%d:%s:%s" nm desc flt_s srt_s skip lim_s
+                  (int_of_nat count) (String.concat "," (List.map hex_of_bytes page)) (String.concat "," (List.map hex_of_bytes cands))) in
+              emit QTrue None 0 None;
+              if not short then begin
+                emit QTrue None 1 (Some 1);
+                (match fv with Some v -> emit (QFieldEq (last, v)) None 0 None | None -> ());
+                emit QTrue (Some first) 0 (Some 1)
+              end) !provs
+          end) sch
+      end
+    end) sch
+
 (* ---- C15: every lookup variant of the store API (tokens LK / RE, harness store_c15w6.go c15LookupReads - keep them in
    step).  The answers are the transcribed variants of Store/Lookups.v; probe ids = the generator's id universe a..f and
    every id the root store holds, each once, in byte order. *)
@@ -312,6 +390,7 @@ let () =
             Buffer.add_string buf (Printf.sprintf " LF:%s:%s:isSystem:%s" nm (hex_of_bytes i) sysv))
             (find_ids sch !st d.sd_name)) sch;
         c15_paged_tokens sch !st buf;
+        c15_cursor_tokens sch !st buf;
         c15_lookup_tokens sch !st buf;
         Buffer.add_string buf " ST";
         List.iter (fun f -> Buffer.add_char buf ' '; Buffer.add_string buf f) (facts sch !st);
